@@ -47,6 +47,13 @@ static inline SmallStackOutcome run_small_stack(size_t stack_bytes, const std::f
         setrlimit(RLIMIT_CPU, &rl);
         struct rlimit nocore = {0, 0};
         setrlimit(RLIMIT_CORE, &nocore);
+#ifdef VF_MAIN
+        // a scratch area far larger than the stack can jump over the guard page and land in another mapping: keep the
+        // runner's shared tables out of reach (the unit is also compiled with -fstack-clash-protection)
+        mprotect((void *)vf::g().sh, sizeof(vf::Shared), PROT_READ);
+        mprotect((void *)vf::g().htab, (vf::g().hmask + 1) * 8, PROT_READ);
+        mprotect((void *)vf::g().stab, (vf::g().smask + 1) * 8, PROT_READ);
+#endif
         pthread_attr_t at;
         pthread_attr_init(&at);
         pthread_attr_setstacksize(&at, stack_bytes);
